@@ -23,8 +23,8 @@ RULES = [
     (r"display_config/unwrap\(persistence_directory", "guarded by persistence_directory().is_some(); every ServerConfig getter is a pure field read", ["config_getters_pure"]),
     # (regex on key, reason, requires)
     (r"MerkleTree::compute_root/panic\('Must have at least one leaf", "compute_root is only called after Responder::is_empty() returned false, and requests/leaves are pushed pairwise", ["merkle_nonempty_before_compute_root"]),
-    (r"MerkleTree::compute_root/index\(arg1\.levels\[", "children 2i, 2i+1 exist: the level below holds 2*node_count nodes after odd-count padding (relational invariant of the pairing loop)", ["merkle_level_structure"]),
-    (r"MerkleTree::compute_root/index\(arg1\.levels,", "level <= number of levels: a level vector is pushed whenever levels.len() < level + 1 before it is indexed", ["merkle_level_structure"]),
+    (r"MerkleTree::compute_root/index\(arg1\.levels\[\]\)", "children 2i, 2i+1 exist: the level below holds 2*node_count nodes after odd-count padding (relational invariant of the pairing loop)", ["merkle_level_structure"]),
+    (r"MerkleTree::compute_root/index\(arg1\.levels\)", "level <= number of levels: a level vector is pushed whenever levels.len() < level + 1 before it is indexed", ["merkle_level_structure"]),
     (r"MerkleTree::compute_root/overflow", "level and node counts are bounded by log2 / the number of leaves (at most 255 per batch, u8 batch size)", ["merkle_level_structure", "batch_size_is_u8"]),
     (r"MerkleTree::compute_root/panic\(assert_eq\)", "after the pairing loop the top level holds exactly one node (node_count == 1)", ["merkle_level_structure"]),
     (r"MerkleTree::compute_root/unwrap\(pop", "the top level holds exactly one node (asserted just before)", ["merkle_level_structure"]),
